@@ -194,9 +194,11 @@ func cmdCheck(args []string) {
 	all = append(all, w.wireObligations(prop)...)
 	dir := filepath.Join(outRoot, "out", prop)
 	os.RemoveAll(dir)
-	dischargeAll(w.x.U, all, dir, timeout, confirm, 10)
-
 	known := loadKnownFindings(filepath.Join(verifRoot, "known-findings.txt"))
+	for _, k := range known {
+		failfastIgnore[k.Obligation] = true
+	}
+	dischargeAll(w.x.U, all, dir, timeout, confirm, 10)
 	// aggregate by name
 	byName := map[string]*oblSummary{}
 	var names []string
@@ -250,6 +252,9 @@ func cmdCheck(args []string) {
 		nObl++
 		if o.Result == "unsat" {
 			nDis++
+		} else if o.Result == "skipped" {
+			// fail-fast run (seeded changes only): not run, not a verdict
+			s.Result = "skipped"
 		} else {
 			s.Result = o.Result
 			failed[o.Name] = append(failed[o.Name], o)
